@@ -106,7 +106,39 @@ func saveState(db kaidb.KeyValueStore, state LatestBlockState) {
 
 	rawdb.WriteConsensusStateHeight(batch, state.LastBlockHeight, *sp)
 
+	// The records above are keyed by ValidatorSet.Hash(), which covers address and voting power only:
+	// they are overwritten while the membership is unchanged and cannot tell the last, current and next
+	// sets of one state apart. Keep the exact sets (proposer priorities included) per height as well.
+	saveHeightValSet(batch, state.LastBlockHeight, rawdb.HeightValSetLast, state.LastHeightValidatorsChanged, state.LastValidators)
+	saveHeightValSet(batch, state.LastBlockHeight, rawdb.HeightValSetCurrent, state.LastHeightValidatorsChanged, state.Validators)
+	saveHeightValSet(batch, state.LastBlockHeight, rawdb.HeightValSetNext, state.LastHeightValidatorsChanged, state.NextValidators)
+
 	batch.Write()
+}
+
+func saveHeightValSet(db kaidb.KeyValueWriter, height uint64, kind byte, lastHeightChanged uint64, valSet *types.ValidatorSet) {
+	if valSet == nil {
+		return
+	}
+	pv, err := valSet.ToProto()
+	if err != nil {
+		panic(err)
+	}
+	rawdb.WriteConsensusHeightValSet(db, height, kind, kstate.ValidatorsInfo{LastHeightChanged: lastHeightChanged, ValidatorSet: pv})
+}
+
+// loadHeightValSet returns the exact validator set saved with the state of the given height,
+// or nil if the state was written before these records existed.
+func loadHeightValSet(db kaidb.Reader, height uint64, kind byte) *types.ValidatorSet {
+	valInfo := rawdb.ReadConsensusHeightValSet(db, height, kind)
+	if valInfo == nil || valInfo.ValidatorSet == nil {
+		return nil
+	}
+	valSet, err := types.ValidatorSetFromProto(valInfo.ValidatorSet)
+	if err != nil {
+		return nil
+	}
+	return valSet
 }
 
 // PruneState prunes consensus state height in range of [from, to)
@@ -128,6 +160,9 @@ func (s *dbStore) PruneState(from, to uint64) (uint64, uint64, uint64) {
 			if err := rawdb.DeleteConsensusStateHeight(s.db, i); err != nil {
 				log.Error("Failed to prune consensus state", "height", i)
 			} else {
+				rawdb.DeleteConsensusHeightValSet(s.db, i, rawdb.HeightValSetLast)
+				rawdb.DeleteConsensusHeightValSet(s.db, i, rawdb.HeightValSetCurrent)
+				rawdb.DeleteConsensusHeightValSet(s.db, i, rawdb.HeightValSetNext)
 				prunedStates++
 				prunedBytes += uint64(len(bz))
 			}
@@ -224,6 +259,19 @@ func loadStateAtHeight(db kaidb.Database, height uint64) *LatestBlockState {
 	}
 	state.LastHeightValidatorsChanged = nValsInfo.LastHeightChanged
 
+	// prefer the exact per-height sets (with proposer priorities) when present
+	if state.LastBlockHeight > 0 {
+		if vs := loadHeightValSet(db, height, rawdb.HeightValSetLast); vs != nil {
+			state.LastValidators = vs
+		}
+	}
+	if vs := loadHeightValSet(db, height, rawdb.HeightValSetCurrent); vs != nil {
+		state.Validators = vs
+	}
+	if vs := loadHeightValSet(db, height, rawdb.HeightValSetNext); vs != nil {
+		state.NextValidators = vs
+	}
+
 	cparams := rawdb.ReadConsensusParamsInfo(db, common.BytesToHash(sp.ConsensusParamsInfoHash))
 	if cparams == nil {
 		panic(fmt.Errorf(`failed to load consensus params at height %v`, height))
@@ -240,6 +288,10 @@ func (s *dbStore) LoadValidators(height uint64) (*types.ValidatorSet, error) {
 	cstate := rawdb.ReadConsensusStateHeight(s.db, height)
 	if cstate == nil {
 		return nil, ErrNoConsensusStateForHeight{height}
+	}
+
+	if vs := loadHeightValSet(s.db, height, rawdb.HeightValSetLast); vs != nil {
+		return vs, nil
 	}
 
 	valInfo := rawdb.ReadConsensusValidatorsInfo(s.db, common.BytesToHash(cstate.LastValidatorsInfoHash))
